@@ -125,6 +125,13 @@ Definition drop_elems (sel : string -> cell -> bool) (js : list Z) (n : net) : n
     negb (hit sel js tn r) &&
     match parent tn with Some e => negb (memz (r_label r) (hit_labels sel js n e)) | None => true end) n.
 
+(* drop_pipes(ps) as called with the pipes found at the junctions: since bef9209 it first drops the valves
+   attached to those pipes (selected pipe-reference cell in ps) and their result rows *)
+Definition drop_pipe_refs (selp : string -> cell -> bool) (ps : list Z) (n : net) : net := drop_elems selp ps n.
+(* drop_elements_at_junctions incl. the cascade pipes -> attached valves *)
+Definition drop_elems_full (sel selp : string -> cell -> bool) (js : list Z) (n : net) : net :=
+  drop_pipe_refs selp (hit_labels sel js n "pipe") (drop_elems sel js n).
+
 Definition subset_b (a b : list Z) : bool := forallb (fun x => memz x b) a.
 
 Definition redirect (sel : string -> cell -> bool) (j1 : Z) (js : list Z) : net -> net :=
@@ -166,9 +173,9 @@ Definition step (s : sem) (o : op) (n : net) : net :=
   | Select cs js => select (on_cell (selJ s cs)) js n
   | DropJ cs js cascade =>
       let n1 := drop_labels (fam "junction") js n in
-      if cascade then drop_elems (on_cell (selJ s cs)) js n1 else n1
-  | DropElems cs js => drop_elems (on_cell (selJ s cs)) js n
-  | DropP ps => drop_labels (fam "pipe") ps n
+      if cascade then drop_elems_full (on_cell (selJ s cs)) (on_cell (selP s)) js n1 else n1
+  | DropElems cs js => drop_elems_full (on_cell (selJ s cs)) (on_cell (selP s)) js n
+  | DropP ps => drop_labels (fam "pipe") ps (drop_pipe_refs (on_cell (selP s)) ps n)
   end.
 
 Fixpoint nodup_z (l : list Z) : bool :=
